@@ -42,7 +42,7 @@ def firstDiff (a b : List String) : Json :=
 def wiringBinds : List String := ["id_i", "id_route_map_i", "route_table_i", "floo_req_i", "floo_req_o",
   "floo_rsp_i", "floo_rsp_o", "floo_wide_i", "floo_wide_o"]
 def wiringParams : List String := ["RouteAlgo", "NumRoutes", "NumInputs", "NumOutputs", "NumAddrRules",
-  "addr_rule_t", "RouteCfg", "id_t", "Sam", "route_t", "dst_t"]
+  "addr_rule_t", "RouteCfg", "id_t", "Sam", "route_t", "dst_t", "XYRouteOpt", "NoLoopback"]
 def isPortsName (s : String) : Bool := s.startsWith "axi_" || s.startsWith "ChimneyCfg" || s.startsWith "AxiCfg"
 
 def sliceItemRouting : Sv.Item → Option Sv.Item
